@@ -39,7 +39,7 @@ Print Assumptions C20_toc_entries_resolve.
 
 (* sections of a report that passes check_tree have pairwise different keys *)
 Theorem C20_sections_have_distinct_keys :
-  forall (r : report) (top : bool) (k : key),
-  titles_ok top r = true -> NoDup (map fst (secs k r)).
+  forall (figs : list string) (r : report) (k : key),
+  titles_ok figs k r = true -> NoDup (map fst (secs k r)).
 Proof. exact secs_nodup. Qed.
 Print Assumptions C20_sections_have_distinct_keys.
